@@ -75,6 +75,7 @@ type e2eEvent struct {
 
 func TestC07EndToEnd(t *testing.T) {
 	sub := lab.Sub("breaker-end-to-end", "rapid histories over {admin operation (add a backend under a new or an already used name, remove a backend / an unknown name, switch the strategy, list backends, read metrics; through the Admin API handlers or the balancer's methods; in every breaker state; the pool of 1-6 backends never becomes empty) - none of which the monitor is told about, request (one in five offering a protocol upgrade - websocket or h2c - or using POST/HEAD), request to a backend that never answers (cut by the 2 s handler timeout), set backend behaviour good/5xx (500, 501, 502, 503, 504, 505, 507 or 599, drawn per backend)/unreachable/abort-mid-body/1xx-then-5xx/1xx-then-200 (interim 100, 102 or 103), advance} against the real "+
+		"(in 4 of 10 histories with health_checks.passive enabled as well, unhealthy_threshold 1/2/3/5 and unhealthy_timeout 1/5/30/60 s: a failed request counts for the breaker whether or not it also gets its backend ejected; the balancer's own 'no healthy backend' answer is neither a rejection nor a proxied request and nothing is demanded of it) "+
 		"LoadBalancer.ServeHTTP with circuit_breaker enabled by configuration, all five strategies, 1-3 scripted backends (L1), virtual time; "+
 		"monitor fed with client status + backend hit counts + published breaker state; non-trivial = breaker opened by proxied failures and half-open reached")
 	sub.NontrivialFloor(0.30)
@@ -96,11 +97,32 @@ func TestC07EndToEnd(t *testing.T) {
 		cfg.CircuitBreaker.Enabled = true
 		cfg.CircuitBreaker.FailureThreshold, cfg.CircuitBreaker.SuccessThreshold, cfg.CircuitBreaker.MaxRequests = c.FT, c.ST, c.MR
 		cfg.CircuitBreaker.IntervalSeconds, cfg.CircuitBreaker.TimeoutSeconds = int(c.Interval/time.Second), int(c.Timeout/time.Second)
+		// Configuration dimension: the breaker together with passive health checking (helios.yaml ships with
+		// both). unhealthy_threshold 1 ejects a backend on every failure, larger ones on every N-th consecutive
+		// one; the ejection period is shorter than, equal to or longer than the breaker's interval / timeout.
+		// A failed proxied request is a failed proxied request whether or not it also gets its backend ejected.
+		passive := ""
+		if rapid.IntRange(0, 9).Draw(rt, "passive_health_checks") < 4 {
+			cfg.HealthChecks.Passive.Enabled = true
+			cfg.HealthChecks.Passive.UnhealthyThreshold = rapid.SampledFrom([]int{1, 1, 2, 3, 5}).Draw(rt, "unhealthy_threshold")
+			cfg.HealthChecks.Passive.UnhealthyTimeout = rapid.SampledFrom([]int{1, 5, 30, 60}).Draw(rt, "unhealthy_timeout")
+			passive = fmt.Sprintf("passive health checks: unhealthy_threshold %d, unhealthy_timeout %ds", cfg.HealthChecks.Passive.UnhealthyThreshold, cfg.HealthChecks.Passive.UnhealthyTimeout)
+		}
 		if err := cfg.Validate(); err != nil {
 			rt.Fatalf("harness: generated config rejected: %v", err)
 		}
 		var evs []e2eEvent
+		if passive != "" {
+			evs = append(evs, e2eEvent{Kind: "config", B: passive})
+		}
 		var viol string
+		noBackend, failedWhilePassive := 0, 0
+		// With passive health checking every backend can be out of rotation: the balancer then answers
+		// "no healthy backend" itself (503, no backend contacted). That is neither a rejection by the breaker
+		// nor a proxied request; see Monitor.Unspecified.
+		unspecified := func(hit int, status int, body string) bool {
+			return passive != "" && hit == 0 && status == 503 && strings.Contains(body, "No healthy backend")
+		}
 		dressed := 0
 		adminIn := map[mstate]int{}
 		poolChangedWhileOpen := 0
@@ -163,13 +185,14 @@ func TestC07EndToEnd(t *testing.T) {
 					before := fn.Arrivals()
 					type res struct {
 						status  int
+						body    string
 						aborted bool
 						at      time.Time
 					}
 					ch := make(chan res, 1)
 					go func() {
-						st, _, _, ab := lab.Serve(lb, lab.Request("GET", "/hang", "10.0.0.9:4000", nil))
-						ch <- res{st, ab, time.Now()}
+						st, body, _, ab := lab.Serve(lb, lab.Request("GET", "/hang", "10.0.0.9:4000", nil))
+						ch <- res{st, body, ab, time.Now()}
 					}()
 					synctest.Wait()
 					hit := fn.Arrivals() - before
@@ -189,6 +212,12 @@ func TestC07EndToEnd(t *testing.T) {
 					for bi, m := range pool {
 						fn.Set(m.host, lab.Good)
 						evs = append(evs, e2eEvent{Kind: "set", I: bi, B: "good", D: m.host})
+					}
+					if unspecified(int(hit), r.status, r.body) {
+						noBackend++
+						evs = append(evs, e2eEvent{Kind: "answered-no-healthy-backend"})
+						mon.Unspecified(time.Now(), publishedState(lb))
+						continue
 					}
 					o := Obs{Invoked: hit == 1, After: publishedState(lb)}
 					o.Failed = o.Invoked && (r.aborted || r.status >= 500)
@@ -228,17 +257,26 @@ func TestC07EndToEnd(t *testing.T) {
 					case "head":
 						method = "HEAD"
 					}
-					status, _, _, aborted := lab.Serve(lb, lab.Request(method, "/x", client, hdr))
+					status, body, _, aborted := lab.Serve(lb, lab.Request(method, "/x", client, hdr))
 					hit := fn.Arrivals() - before
 					if hit > 1 {
 						viol = fmt.Sprintf("one client request reached backends %d times", hit)
 						return
+					}
+					if unspecified(int(hit), status, body) {
+						noBackend++
+						evs = append(evs, e2eEvent{Kind: "answered-no-healthy-backend"})
+						mon.Unspecified(time.Now(), publishedState(lb))
+						continue
 					}
 					o := Obs{Invoked: hit == 1, After: publishedState(lb)}
 					// whether the exchange failed is the scripted backend's ground truth (5xx, unreachable, response
 					// aborted mid-body), not what the client was shown: the breaker must count what happened
 					o.Failed = o.Invoked && fn.FailedAt(before)
 					o.Err = !o.Invoked
+					if o.Failed && passive != "" {
+						failedWhilePassive++
+					}
 					if v := mon.Step(time.Now(), o); v != "" {
 						viol = fmt.Sprintf("event #%d (status %d, backend hits %d, aborted %v): %s", i, status, hit, aborted, v)
 						return
@@ -382,6 +420,21 @@ func TestC07EndToEnd(t *testing.T) {
 		}
 		if poolChangedWhileOpen > 0 {
 			labels = append(labels, "backend-added-or-removed-while-open")
+		}
+		if passive != "" {
+			labels = append(labels, "passive-health-checks-enabled", fmt.Sprintf("unhealthy-threshold-%d", cfg.HealthChecks.Passive.UnhealthyThreshold))
+			if failedWhilePassive > 0 {
+				labels = append(labels, "proxied-failure-with-passive-health-checks")
+			}
+			if noBackend > 0 {
+				labels = append(labels, "every-backend-ejected-answer-seen")
+			}
+			if mon.Opened > 0 {
+				labels = append(labels, "opened-with-passive-health-checks")
+			}
+		}
+		if viol != "" && passive != "" {
+			viol += " [" + passive + "; a failed request that also gets its backend ejected is still a failed proxied request]"
 		}
 		if viol != "" && len(adminSince) > 0 {
 			viol += fmt.Sprintf(" [admin operations since the breaker became %s, none of which may change what it does: %s]", mon.state, strings.Join(adminSince, "; "))
